@@ -105,6 +105,8 @@ def gen(rng, spec):
             tag[i, order[1]] = tag[i, order[0]]          # tie at the top
     case['sentences'][0] = (words, tag.astype(np.float32), dep)
     case['exact'] = False
+    if rng.random() < 0.15:
+        search.extreme_rows(rng, case, mode='deep')
     return case
 
 
